@@ -129,30 +129,41 @@ func isMapStringByte(t types.Type) bool {
 	return ok1 && ok2 && k.Kind() == types.String && (v.Kind() == types.Uint8 || v.Kind() == types.Byte)
 }
 
+// seqElem: the element type of a slice or an array.
+func seqElem(t types.Type) (types.Type, bool) {
+	switch u := t.Underlying().(type) {
+	case *types.Slice:
+		return u.Elem(), true
+	case *types.Array:
+		return u.Elem(), true
+	}
+	return nil, false
+}
+
 func isSliceOfString(t types.Type) bool {
-	s, ok := t.Underlying().(*types.Slice)
+	el, ok := seqElem(t)
 	if !ok {
 		return false
 	}
-	b, ok := s.Elem().Underlying().(*types.Basic)
+	b, ok := el.Underlying().(*types.Basic)
 	return ok && b.Kind() == types.String
 }
 
 func isSliceOfInt(t types.Type) bool {
-	s, ok := t.Underlying().(*types.Slice)
+	el, ok := seqElem(t)
 	if !ok {
 		return false
 	}
-	b, ok := s.Elem().Underlying().(*types.Basic)
+	b, ok := el.Underlying().(*types.Basic)
 	return ok && b.Kind() == types.Int
 }
 
 func isSliceOfNameType(t types.Type) bool {
-	s, ok := t.Underlying().(*types.Slice)
+	el, ok := seqElem(t)
 	if !ok {
 		return false
 	}
-	st, ok := s.Elem().Underlying().(*types.Struct)
+	st, ok := el.Underlying().(*types.Struct)
 	if !ok || st.NumFields() != 2 {
 		return false
 	}
